@@ -165,6 +165,7 @@ def main(argv=None) -> int:
                 print(f"KEY {'known' if key in known_keys else 'NEW  '} n={vc.get(key, '?')} {key} :: {what[:300]}")
         rc = 0
         nnew = 0
+        unconfirmed: list[str] = []
         for key, (what, rep) in list(new.items())[:25]:
             d = os.path.join(VERIF, "replays" if os.path.realpath(REPO) == "/repo" else ".scratch_replays", pid)
             os.makedirs(d, exist_ok=True)
@@ -179,14 +180,21 @@ def main(argv=None) -> int:
                 os.unlink(path)
                 raise HarnessError(f"replay of {key} crashed: {(r.stdout + r.stderr)[-300:]}")
             if key not in again:
+                # found during the run but not when replayed alone in a fresh process (it depended on what the same worker had done
+                # before): never reported as a VIOLATION; an error of the harness unless another violation of this run does reproduce
                 os.unlink(path)
-                raise HarnessError(f"violation {key} did not reproduce on replay: {what} / {again[:5]}")
+                unconfirmed.append(f"violation {key} did not reproduce on replay: {what} / {again[:5]}")
+                continue
             print(f"VIOLATION property={pid} replay={path}")
             print(f"  key={key} cases={vc.get(key, '?')}\n  what={what}")
             if "labels" in rep:
                 print("  schedule=" + " ".join(l for l in rep["labels"] if l != "('step',)"))
             rc = 1
             nnew += 1
+        if unconfirmed and not nnew:
+            raise HarnessError(unconfirmed[0])
+        for u in unconfirmed:
+            print(f"UNCONFIRMED (not reported): {u[:300]}")
         ctx.coverage.setdefault("violation_cases_total", ctx.nviol_total)
         write_evidence(ctx, nnew, len(seen_known))
         cov = ctx.coverage
